@@ -266,9 +266,38 @@ def run_verus_unit(u, scratch, tier, extra_flags=()):
             owners = list(props or unit_props)
         lab = "+".join(labels) if labels else _slug(msg)
         res["failures"].append(dict(
-            obligation=f"{u['name']}::{fn}::{lab}", labels=labels, owners=owners, fn=fn, hint_only=hint_only,
+            obligation=f"{u['name']}::{fn}::{lab}", labels=labels, owners=owners, fn=fn, hint_only=hint_only, prim_lines=prim_lines,
             src=srcloc, message=msg, clause=clause_txt,
             rendered=e.get("rendered", "")[:6000]))
+    # a hint that FAILS on this tree (an assertion or a lemma precondition inside an anchored proof hint) is assumed by the
+    # verifier for the rest of the function and can hide the failure of the code's own obligation: verify the unit once more
+    # without those hints; what then fails and does not need the removed hint on the unchanged tree (hint_deps.json) counts
+    bad_sites = set()
+    if vx.ABLATE_HINT[0] is None:
+        for f in res["failures"]:
+            if not f.get("hint_only"):
+                continue
+            for ln_ in f.get("prim_lines", []):
+                m_ = re.search(r"/\*@site:(\d+)\*/", gen_lines[ln_ - 1]) if 0 < ln_ <= len(gen_lines) else None
+                if m_ and int(m_.group(1)) < len(vx.HINT_SITES):
+                    q_, w_, a_, k_ = vx.HINT_SITES[int(m_.group(1))]
+                    bad_sites.add((q_, a_, k_))
+    if bad_sites:
+        vx.ABLATE_HINT[0] = frozenset(bad_sites)
+        try:
+            r2 = run_verus_unit(u, scratch, tier, extra_flags)
+        finally:
+            vx.ABLATE_HINT[0] = None
+        if not r2.get("infra"):
+            deps = _hint_deps().get(u["name"], {})
+            for f2 in r2["failures"]:
+                for (q_, a_, k_) in bad_sites:
+                    if f2.get("fn") == q_:
+                        needs = deps.get(q_, {}).get(f"{a_}#{k_}")
+                        if needs is None or needs == "*" or f2["obligation"] in needs:
+                            f2["needs_failed_hint"] = f"its proof needs the hint at {a_[:60]!r}, which does not hold on this code"
+            r2.setdefault("report", []).append(dict(item="proof hints", src="", rewrites=[f"hint: proof hint at {a_!r} #{k_} of {q_} fails on this tree: unit verified again without it" for (q_, a_, k_) in sorted(bad_sites)]))
+            return r2
     # same verification condition as on the unchanged tree?  (item_hashes.json, tools/item_hashes.py)
     if res["failures"]:
         base = _item_hashes().get(u["name"], {})
@@ -523,6 +552,16 @@ def _item_hashes():
 
 
 
+def _hint_deps():
+    global _HINT_DEPS
+    if _HINT_DEPS is None:
+        try:
+            _HINT_DEPS = json.load(open(os.path.join(VERIF, "hint_deps.json")))
+        except Exception:
+            _HINT_DEPS = {}
+    return _HINT_DEPS
+
+
 def explained_by_lost_hint(f, r):
     """A failing obligation of function F is not held against the code when a proof hint of F could not be placed on this
     tree (its anchor text is gone) and, on the unchanged tree, the obligation's proof NEEDS that hint (hint_deps.json,
@@ -599,7 +638,7 @@ def finish(prop, args, seed, t0, results):
         elif f.get("hint_only"):
             hint_fail.append((f, r))
         else:
-            why = explained_by_lost_hint(f, r)
+            why = explained_by_lost_hint(f, r) or f.get("needs_failed_hint")
             if not why and f.get("same_vc"):
                 why = ("the function and every extracted item it names are textually unchanged: this is the verification condition "
                        "that is discharged on the unchanged tree (solver instability, not the change under test)")
